@@ -335,7 +335,13 @@ def systematic(rng, text, meta, n):
     out = []
     combos = [(s, ins, where) for s in secs for ins in INSERTS for where in ("first", "last")]
     rng.shuffle(combos)
-    for s, ins, where in combos[:n]:
+    # directed: in delimited / wrapped / text-column data a blanks-only, an empty and an indented comment line at both ends of
+    # ~A are always tried (the normal engine splits such lines with the declared delimiter; seeded change C09_2 lives there)
+    directed = []
+    if meta.get("dlm") in ("COMMA", "TAB") or meta.get("wrapped") or meta.get("text_column"):
+        directed = [(s, ins, where) for s in secs if s[0] == "A" for ins in ("   ", "", "\t", "   # indented comment")
+                    for where in ("first", "last")]
+    for s, ins, where in directed + combos[:n]:
         pos = s[1] + 1 if where == "first" or not s[2] else s[2][-1] + 1
         new = lines[:pos] + [ins] + lines[pos:]
         out.append(("\n".join(new) + ("\n" if final_nl else ""), ["insert %r as %s line of ~%s" % (ins, where, s[0])]))
